@@ -109,6 +109,7 @@ type pathCtx struct {
 	watching   bool
 	fresh      map[*value]bool
 	allowed    map[*value]bool
+	pools      map[*value][]value // sync.Pool model: LIFO of Put objects per pool
 	allocLimit int64
 	mapOrder   int
 	nsym       int // number of symbolic branches on this path
